@@ -448,3 +448,13 @@ func init() {
 		return 0
 	}
 }
+
+func init() {
+	checks["dbgc17"] = func(args []string) int {
+		x := c17Build(args[0])
+		defer x.Close()
+		cs := x.C.Nodes[0].Node.VCoreState()
+		fmt.Printf("state=%s heads=%v txpool=%d selfsigs=%d busy=%v\n", x.C.Nodes[0].Node.GetState(), cs.Heads, len(cs.TxPool), len(cs.SelfSigs), cs.Busy)
+		return 0
+	}
+}
